@@ -161,8 +161,9 @@ Faults(f) ==
                    : w \in {"before"} \cup (IF Fs[k].len > 1 THEN {"inside", "last"} ELSE {})
                                       \cup (IF Fs[k].f = "s.padding" /\ Fs[k].len > 4 THEN {"aligned"} ELSE {})} : k \in 1..Len(Fs)}
 
-Flags == [concat |-> TRUE, tellNo |-> FALSE, tellUnsup |-> FALSE, tellAny |-> FALSE, ignoreCheck |-> FALSE]
-Init == \E f \in BaseFiles : \E fl \in Faults(f) :
+(* the flag lattice of the decoders: LZMA_CONCATENATED x LZMA_IGNORE_CHECK *)
+FlagSets == {[concat |-> c, tellNo |-> FALSE, tellUnsup |-> FALSE, tellAny |-> FALSE, ignoreCheck |-> i] : c, i \in BOOLEAN}
+Init == \E f \in BaseFiles : \E fl \in Faults(f) : \E Flags \in FlagSets :
            /\ orig = f
            /\ fault = [kind |-> fl.kind, s |-> fl.s, b |-> fl.b, f |-> fl.f, cls |-> fl.cls, frame |-> fl.frame]
            /\ DecInit(fl.file, Flags, fl.limit)
@@ -198,25 +199,29 @@ Spec == Init /\ [][Next]_fvars
 (* ------------------------------------------------------------------------ *)
 Done == ret # "run"
 Success == ret = "STREAM_END"
-OrigMeaning == Meaning(orig, TRUE)
+OrigMeaning == Meaning(orig, flags.concat)          \* without LZMA_CONCATENATED the decoder is asked for the first Stream only
+(* ... and never looks at what follows the first Stream Footer *)
+Unseen == ~flags.concat /\ fault.kind # "none" /\ (fault.s > 1 \/ fault.f = "s.padding")
 HasIntegrityCheck == \A k \in 1..Len(orig.streams) : orig.streams[k].check \in {1, 4, 10}
 (* 1. with an integrity check, a damaged file is never reported complete with other data *)
 (*    (a file cut exactly between two Streams is a shorter VALID file: CutAtStreamBoundary below, outside the clause) *)
-NeverWrongSuccess == (Done /\ fault.kind # "none" /\ HasIntegrityCheck /\ ~(fault.kind = "trunc" /\ (fault.f = "s.padding" \/ (fault.f = "h.magic" /\ fault.cls = "before" /\ fault.s > 1))))
+(*    LZMA_IGNORE_CHECK renounces the integrity check.                                                              *)
+NeverWrongSuccess == (Done /\ fault.kind # "none" /\ HasIntegrityCheck /\ ~flags.ignoreCheck /\ ~(fault.kind = "trunc" /\ (fault.f = "s.padding" \/ (fault.f = "h.magic" /\ fault.cls = "before" /\ fault.s > 1))))
                         => ~(Success /\ (out # OrigMeaning \/ partial))
 (* 2. damage outside the compressed payload is always an error.  Named exclusions:                            *)
 (*    UnverifiableCheck - the Check field of a type this build cannot compute;                               *)
 (*    Overwrite(.., "benign") - a re-written, CRC-consistent header that means the same;                    *)
 (*    whole zero words added to / removed from Stream Padding are not damage to its length modulo four.     *)
-UnverifiableCheck == fault.f = "b.check" /\ ~CheckSupported(orig.streams[fault.s].check)
-OutsidePayload == fault.kind \in {"flip", "over", "ins", "del"} /\ fault.f # "b.data" /\ fault.cls # "benign" /\ ~UnverifiableCheck
+UnverifiableCheck == fault.f = "b.check" /\ (~CheckSupported(orig.streams[fault.s].check) \/ flags.ignoreCheck)
+OutsidePayload == fault.kind \in {"flip", "over", "ins", "del"} /\ fault.f # "b.data" /\ fault.cls # "benign" /\ ~UnverifiableCheck /\ ~Unseen
 DamageOutsidePayloadDetected == (Done /\ OutsidePayload) => ~Success
 (* 3. a file that ends inside a Stream is never complete (through lzma_code: LZMA_BUF_ERROR).               *)
 (*    CutAtStreamBoundary: cutting exactly between Streams / inside Stream Padding leaves a shorter valid   *)
 (*    file (multiple of four) or is a padding error - not "inside a Stream".                                *)
 CutAtStreamBoundary == fault.kind = "trunc" /\ (fault.f = "s.padding" \/ (fault.f = "h.magic" /\ fault.cls = "before" /\ fault.s > 1))
-TruncatedNeverComplete == (Done /\ fault.kind = "trunc" /\ ~CutAtStreamBoundary) => ret = "BUF_ERROR"
-BoundaryCutIsPrefix == (Done /\ CutAtStreamBoundary) => (ret \in {"STREAM_END", "DATA_ERROR"} /\ ~partial
+TruncatedNeverComplete == (Done /\ fault.kind = "trunc" /\ ~CutAtStreamBoundary /\ ~Unseen) => ret = "BUF_ERROR"
+UnseenIsHarmless == (Done /\ Unseen) => (Success /\ out = OrigMeaning /\ ~partial)
+BoundaryCutIsPrefix == (Done /\ CutAtStreamBoundary /\ ~Unseen) => (ret \in {"STREAM_END", "DATA_ERROR"} /\ ~partial
                                                            /\ Len(out) <= Len(OrigMeaning) /\ \A k \in 1..Len(out) : out[k] = OrigMeaning[k])
 (* 4. sanity: no fault, no error *)
 NoFaultNoError == (Done /\ fault.kind = "none") => (Success /\ out = OrigMeaning)
@@ -226,6 +231,7 @@ RetDocumented == ret \in {"run", "STREAM_END", "FORMAT_ERROR", "OPTIONS_ERROR", 
 Emit == (ret' # "run") =>
           PrintT(<<"PLAN", ToJson([base |-> [check |-> orig.streams[1].check,      \* identifies the base file within BaseFiles
                                              dids |-> [k \in 1..Len(orig.streams) |-> StreamMeaning(orig.streams[k])]],
+                                   flags |-> [concat |-> flags.concat, ignoreCheck |-> flags.ignoreCheck],
                                    fault |-> fault, ret |-> ret', same |-> (out' = OrigMeaning /\ ~partial'),
                                    file |-> IF fault.kind = "none" THEN orig ELSE [streams |-> <<>>],
                                    fields |-> IF fault.kind = "none" THEN Fields(orig) ELSE <<>>])>>)
